@@ -1019,9 +1019,16 @@ impl XmlDocumentFragment {
 
 // -----------------------------------------------------------------------------------------------
 
-#[derive(Clone, PartialEq)]
+#[derive(Clone)]
 pub struct XmlDocument {
     document: info::XmlNode<info::XmlDocument>,
+}
+
+/// Two handles are equal when they refer to the same document object.
+impl PartialEq for XmlDocument {
+    fn eq(&self, other: &XmlDocument) -> bool {
+        Rc::ptr_eq(&self.document, &other.document)
+    }
 }
 
 impl Document for XmlDocument {
